@@ -183,10 +183,18 @@ def marker_cmd(prog, out_len, in_len):
     return cmd, cdb, dout, din
 
 
+_counter = [0]
+
+
+def _next_id():
+    _counter[0] += 1
+    return _counter[0]
+
+
 def make_scsi_device(prog):
     cls = prog.cls("pyscsi.pyscsi.scsi_device", "SCSIDevice")
     dev = Instance(cls)
-    dev.attrs.update({"_file_name": SymStr("devname"), "_read_write": False, "_file": External("file-handle"),
+    dev.attrs.update({"_file_name": SymStr("devname"), "_read_write": False, "_file": External("file-handle@%d" % _next_id()),
                       "_ino": External("recorded-ino"), "_detect_replugged": False, "_buffering": -1})
     return dev
 
